@@ -1,6 +1,7 @@
 package main
 
 import (
+	"go/types"
 	"fmt"
 	"go/token"
 	"sort"
@@ -48,6 +49,10 @@ func runC19(w *World, r *Report) {
 	r3 := r.Rule("C19-R3", "no reachable panic from the handler; dotted names rejected", "VTA reachability from the HTTP handler closure to panic/log.Panic/log.Fatal sites minus the reasoned allowlist; validCreateRequest tests strings.Contains(name, \".\") with an error return for collection names, database keys and mapping names, and is the first call of Create", 8)
 	r.Rule("C19-R4", "decode before store", "in Create no call that decodes request data (Base64Decode*/Parse*) is reachable after a meta-store Put", 2)
 	r.Rule("C19-R5", "rejects leave bookkeeping untouched", "checkDuplicateCollection has no error return after a bookkeeping write; the validation call dominates the reserve", 2)
+	r.Rule("C19-R7", "every request is decoded into a fresh value", "the targets of json.Unmarshal in the HTTP handler and of mapstructure.Decode in handleRequest are objects allocated for this request (a composite literal in the handler / the result of a generateModel literal that returns a fresh allocation), never a pooled, global or cached object: a field the body omits must be zero, not left over from an earlier request", 2)
+	c19FreshDecodeTargets(w, r)
+	r.Rule("C19-R8", "bookkeeping read-modify-write is atomic", "a value written into collectionNames.{data,excludeData,extraInfos,nameMapping} that derives from a read of the same table was read in the same function under the same lock span as the write (no snapshot taken earlier is written back)", 4)
+	c19AtomicRMW(w, r, "C19-R8")
 	r.Rule("C19-R6", "task id validated before use as a key segment", "validCreateRequest rejects a task id containing '/' (and the relative segments) with an error", 1)
 
 	hr := w.Func(pkgServer, "CDCServer", "handleRequest")
@@ -547,4 +552,159 @@ func countFromBlock(b *ssa.BasicBlock, match func(ssa.Instruction) bool) cnt {
 		return res
 	}
 	return walk(b)
+}
+
+// c19FreshDecodeTargets: C19-R7.
+func c19FreshDecodeTargets(w *World, r *Report) {
+	fresh := func(v ssa.Value, fn *ssa.Function) (bool, string) {
+		for _, x := range backSlice(v, SliceOpts{MaxDepth: 6, NoAggregates: true}) {
+			switch y := x.(type) {
+			case *ssa.Alloc:
+				if y.Heap && y.Parent() == fn {
+					return true, "allocated in " + shortFn2(fn)
+				}
+			case *ssa.Call:
+				// result of a model generator: a literal whose every return is a fresh allocation
+				return false, "result of a call"
+			case *ssa.Global:
+				return false, "package-level variable " + y.Name()
+			}
+		}
+		return false, "not an allocation of this request"
+	}
+	n := 0
+	for _, fn := range w.RepoFuncs() {
+		if fn.Pkg.Pkg.Path() != pkgServer {
+			continue
+		}
+		root := fnSym(rootFunc(fn)).name
+		if root != "getCDCHandler" && root != "handleRequest" {
+			continue
+		}
+		eachInstr(fn, func(in ssa.Instruction) {
+			c, ok := in.(*ssa.Call)
+			if !ok {
+				return
+			}
+			s := callSym(c.Common())
+			var target ssa.Value
+			switch {
+			case s.name == "Unmarshal" && strings.HasSuffix(s.pkg, "json") && len(c.Call.Args) == 2:
+				target = c.Call.Args[1]
+			case s.name == "Decode" && strings.HasSuffix(s.pkg, "mapstructure") && len(c.Call.Args) == 2 && root == "handleRequest":
+				target = c.Call.Args[1]
+			default:
+				return
+			}
+			n++
+			cons := fmt.Sprintf("%s | %s.%s target", shortFn2(fn), s.pkg[strings.LastIndex(s.pkg, "/")+1:], s.name)
+			ok2, why := fresh(target, fn)
+			viaGenerator := false
+			for _, x := range backSlice(target, SliceOpts{MaxDepth: 6, NoAggregates: true}) {
+				if cc, isC := x.(*ssa.Call); isC && strings.HasSuffix(w.accessPath(cc.Call.Value), ".generateModel") {
+					viaGenerator = true
+				}
+			}
+			if !ok2 && viaGenerator && s.name == "Decode" {
+				// handler.generateModel(): every generateModel literal registered in the server package returns a fresh allocation
+				gens, good := 0, true
+				for _, g := range w.RepoFuncs() {
+					if g.Pkg.Pkg.Path() != pkgServer || g.Parent() == nil || g.Signature.Params().Len() != 0 || g.Signature.Results().Len() != 1 {
+						continue
+					}
+					if _, isI := g.Signature.Results().At(0).Type().Underlying().(*types.Interface); !isI {
+						continue
+					}
+					gens++
+					eachInstr(g, func(x ssa.Instruction) {
+						if ret, isR := x.(*ssa.Return); isR {
+							f2, _ := fresh(ret.Results[0], g)
+							if !f2 {
+								good = false
+							}
+						}
+					})
+				}
+				ok2, why = gens >= 8 && good, fmt.Sprintf("%d model generators, all returning a fresh allocation=%v", gens, good)
+			}
+			r.Check(ok2, "C19-R7", cons, c.Pos(), why, "the request is decoded into an object that outlives the request ("+why+"): fields the body omits keep the values of an earlier request, e.g. a body without request_type is executed as the previous request's type")
+		})
+	}
+	if n < 2 {
+		r.Fail("C19-R7", "decode census", 0, fmt.Sprintf("only %d decode calls found in the handler (2 confirmed)", n))
+	}
+}
+
+// c19AtomicRMW: C19-R8 / C10-R7.
+func c19AtomicRMW(w *World, r *Report, rule string) {
+	n := 0
+	for _, fn := range w.RepoFuncs() {
+		if fn.Pkg.Pkg.Path() != pkgServer {
+			continue
+		}
+		fam := familyOf(fn)
+		k := map[string]int{}
+		eachInstr(fn, func(in ssa.Instruction) {
+			mu, ok := in.(*ssa.MapUpdate)
+			if !ok {
+				return
+			}
+			t, _ := c10Access(w, in)
+			if t == "" {
+				return
+			}
+			// reads of the same table the stored value derives from
+			var reads []*ssa.Lookup
+			through := func(c *ssa.CallCommon) []ssa.Value { return callArgs(c) }
+			for _, x := range backSlice(mu.Value, SliceOpts{MaxDepth: 8, ThroughArg: through}) {
+				if lk, isL := x.(*ssa.Lookup); isL {
+					if t2, _ := c10Access(w, lk); t2 == t {
+						reads = append(reads, lk)
+					}
+				}
+			}
+			if len(reads) == 0 {
+				return
+			}
+			n++
+			k[t]++
+			cons := fmt.Sprintf("%s | %s written from a read of %s #%d", shortFn2(fn), t, t, k[t])
+			bad := ""
+			for _, lk := range reads {
+				if lk.Parent() != mu.Parent() {
+					bad = "the value was read in " + shortFn2(lk.Parent()) + " (another function, another critical section)"
+					continue
+				}
+				// same function: no Unlock of the collectionNames lock between the read and the write
+				hr, hw := w.locksHeldAt(lk), w.locksHeldAt(mu)
+				if !(heldSuffix(hr, ".collectionNames", "") && heldSuffix(hw, ".collectionNames", "W")) {
+					if fnSym(rootFunc(fn)).name == "ReloadTask" || fnSym(rootFunc(fn)).name == "NewMetaCDC" {
+						continue
+					}
+					bad = "read and write are not both inside the collectionNames lock"
+					continue
+				}
+				unlocked := false
+				eachInstr(fn, func(x ssa.Instruction) {
+					if c, isC := x.(*ssa.Call); isC {
+						if nme := callSym(c.Common()).name; nme == "Unlock" || nme == "RUnlock" {
+							if rv := callRecv(c.Common()); rv != nil && strings.Contains(w.accessPath(rv), ".collectionNames") {
+								if instrReaches(lk, c) && instrReaches(c, mu) {
+									unlocked = true
+								}
+							}
+						}
+					}
+				})
+				if unlocked {
+					bad = "the lock is released between the read and the write"
+				}
+			}
+			_ = fam
+			r.Check(bad == "", rule, cons, mu.Pos(), "read and written in one critical section", "a snapshot of "+t+" is written back later: "+bad+"; a concurrent accepted request in between is overwritten (e.g. the revert of a rejected create wipes another task's reservation)")
+		})
+	}
+	if n < 3 {
+		r.Fail(rule, "read-modify-write census", 0, fmt.Sprintf("only %d read-modify-write updates of the bookkeeping found (3 confirmed)", n))
+	}
 }
